@@ -67,6 +67,9 @@ func SampleFromProto(s *pb.Sample) (Sample, error) {
 		s.GetProof().GetIsMaxNamespaceIgnored(),
 	)
 
+	if pt := s.GetProofType(); pt != pb.AxisType_ROW && pt != pb.AxisType_COL {
+		return Sample{}, fmt.Errorf("invalid SampleProofType: %d", pt)
+	}
 	shrs, err := ShareFromProto(s.GetShare())
 	if err != nil {
 		return Sample{}, err
@@ -117,6 +120,9 @@ func (s *Sample) UnmarshalJSON(data []byte) error {
 	}
 	if err := json.Unmarshal(data, &jsonSample); err != nil {
 		return err
+	}
+	if jsonSample.ProofType != rsmt2d.Row && jsonSample.ProofType != rsmt2d.Col {
+		return fmt.Errorf("invalid SampleProofType: %d", jsonSample.ProofType)
 	}
 
 	s.Share = jsonSample.Share
